@@ -58,6 +58,21 @@ CLAIMED = {
         note='Trusted: exact invertibility of the library operators; n_e = int(np.round(d/dt)). Known findings: heun '
              'double roll, two delayed Connectivity objects per source.',
         ref='§3 C09'),
+    'C10': dict(
+        technique=TECH + 'decodable fake history at the hist seam (function level) and a recording DDEHistory subclass + '
+                         'RHS spy (run level) checked against a method-of-steps replica',
+        text='Function level: the compiled function of models with past(x,tau) / x(t-tau) operators and of delayed edges '
+             'under an adaptive solver is evaluated with an affine, per-component-distinct fake history, so the derivative '
+             'reveals which component was read at which time (L-comp) and the query times must be exactly {t - tau_j} in '
+             'time units for both fixed-step and adaptive functions (L-query). Run level: a recording subclass of the '
+             'real DDEHistory is installed at the module-attribute seam during run(euler|heun|scipy); updates must be '
+             '((k+1)dt, y_{k+1}) / monotone, queries before 0 return the initial state and later ones the interpolant '
+             'of what was fed, every Euler-stage derivative must equal the reference with delayed terms read from the '
+             'piecewise-linear interpolant of the recorded trajectory (1e-9), adaptive runs stay within 2e-3*max|y| of '
+             'a fine-step RK4 method-of-steps reference.',
+        note='Trusted: RefNet semantics incl. the two delay notations; RK4(h=dt/40)+linear history as adaptive reference. '
+             'Loudly refused DDE forms are discarded and counted. Known finding KF-C10-vectorized-tau-first-element.',
+        ref='§3 C10'),
     'C13': dict(
         technique=TECH + 'interleaved user workflows in one process vs each workflow alone in a pristine fork '
                          '(refinement), with API/interrupt/I-O/RHS faults and cache wipes',
@@ -99,7 +114,7 @@ CLAIMED = {
 }
 
 _P = 'check under construction in this session (planned as claimed, see DESIGN §0/§3); not decided yet'
-PENDING = {k: _P for k in ['C10', 'C11', 'C15']}
+PENDING = {k: _P for k in ['C11', 'C15']}
 
 NA = {
     'C01': 'pure function of (model, state, parameters): no schedule, clock, fault or history in the statement; '
